@@ -67,3 +67,20 @@ Proof. unfold i_SteadyDetonationReactionZone, sdrz_doc_ok. guard_solve. Qed.
 Lemma cylexp_guards_proof : forall geometry r_1 r_2 D_CJ_1 D_CJ_2 alpha_1 alpha_2 t_d,
   i_CylindricalExpansion geometry r_1 r_2 D_CJ_1 D_CJ_2 alpha_1 alpha_2 t_d <-> cylexp_doc_ok geometry r_1 r_2 D_CJ_1 D_CJ_2 alpha_1 alpha_2 t_d.
 Proof. unfold i_CylindricalExpansion, cylexp_doc_ok. guard_solve. Qed.
+
+Lemma ratestick_guards_proof : forall geometry R_ omega_c D_CJ alpha IC r_d t_f xnodes ynodes,
+  i_RateStick geometry R_ omega_c D_CJ alpha IC r_d t_f xnodes ynodes <->
+  ratestick_doc_ok geometry R_ omega_c D_CJ alpha IC r_d t_f xnodes ynodes.
+Proof.
+  intros geometry R_ omega_c D_CJ alpha IC r_d t_f xnodes ynodes. unfold i_RateStick, ratestick_doc_ok. split; intro H.
+  - repeat match goal with H : _ /\ _ |- _ => destruct H end.
+    repeat split; try tauto; try lra.
+  - repeat match goal with H : _ /\ _ |- _ => destruct H end.
+    repeat split; try tauto; try lra; try (intro; lra).
+    all: intros [HIC Hlt]; match goal with Hx : _ = 1 -> _ |- _ => specialize (Hx HIC) end; lra.
+Qed.
+
+Lemma explosivearc_guards_proof : forall geometry r_1 r_2 omega_in omega_out x_d D_CJ alpha t_f xnodes ynodes,
+  i_ExplosiveArc geometry r_1 r_2 omega_in omega_out x_d D_CJ alpha t_f xnodes ynodes <->
+  explosivearc_doc_ok geometry r_1 r_2 omega_in omega_out x_d D_CJ alpha t_f xnodes ynodes.
+Proof. unfold i_ExplosiveArc, explosivearc_doc_ok. guard_solve. Qed.
